@@ -548,10 +548,15 @@ def thread_state(t):
         if end == "cycle" or end is None:
             return "running"
         # end = ident of the last thread of the chain
+        last_is_join = idents[-2] in LM.joining if len(idents) >= 2 else False
         for t2 in list(TRACKED) + list(ACTORS):
             if t2.ident == end:
                 s2 = thread_state_simple(t2)
-                return "blocked" if s2 in ("dead", "paused", "parked") else "running"
+                if s2 == "dead":
+                    # joining a thread that just exited is transient; a lock
+                    # whose owner died is never released
+                    return "running" if last_is_join else "blocked"
+                return "blocked" if s2 in ("paused", "parked") else "running"
         return "running"
     return "running"
 
